@@ -247,7 +247,7 @@ Lemma new_span_ok s g parent (newroot : bool) :
   flags parent < 256 ->
   let psc := if newroot then zero_sc else parent in
   let sp := new_span s g parent newroot in
-  start_ok (octx_of psc) (fst g) (snd g) (code (dec (sres sp))) (rts (sres sp))
+  start_ok (stock s) (octx_of psc) (fst g) (snd g) (code (dec (sres sp))) (rts (sres sp))
            (octx_of (sc sp)) (recording sp) (exported sp) = true /\
   sres sp = should_sample s psc (tid (sc sp)) /\
   asked_ids sp = zero (tid psc).
@@ -263,6 +263,9 @@ Proof.
                            (if negb (zero (tid psc)) then tid psc else fst g) = true).
     { destruct (zero (tid psc)); apply bytes_eqb_refl. }
     rewrite Et. cbn [andb]. unfold is_sampled, sampled_flag. cbn [flags].
+    assert (Hts : implb (stock s) (bytes_eqb (rts r) (tstate psc)) = true).
+    { destruct (stock s) eqn:Es; [|reflexivity]. unfold r. rewrite stock_tracestate by exact Es. apply bytes_eqb_refl. }
+    rewrite Hts, andb_true_r.
     destruct (dec r); cbn [code decision_eqb negb];
       rewrite ?lor1_odd, ?land254_odd, ?lor1_half, ?land254_half by exact Hfp;
       rewrite ?N.eqb_refl; reflexivity.
